@@ -589,6 +589,12 @@ class TLSConnection(TLSRecordLayer):
             self._recordLayer.encryptThenMAC = True
 
         if serverHello.getExtension(ExtensionType.extended_master_secret):
+            if self.version == (3, 0):
+                # RFC 7627 defines the extended master secret for TLS only
+                for result in self._sendError(
+                        AlertDescription.illegal_parameter,
+                        "Server negotiated extended master secret in SSLv3"):
+                    yield result
             self.extendedMasterSecret = True
 
         # If the server elected to resume the session, it is handled here.
